@@ -11,6 +11,12 @@ pub(crate) fn stub_fmt_write(_o: &mut dyn core::fmt::Write, _a: core::fmt::Argum
 pub(crate) fn stub_repeat(_s: &str, _n: usize) -> String {
   String::new()
 }
+/// char counting of core::str (bit-trick chunk loops, 430 s of solver time): any count <= byte length
+pub(crate) fn stub_count_chars(s: &str) -> usize {
+  let n: usize = kani::any();
+  kani::assume(n <= s.len());
+  n
+}
 
 fn content3(buf: &mut [u8; 3]) -> usize {
   let len: usize = kani::any();
@@ -20,16 +26,18 @@ fn content3(buf: &mut [u8; 3]) -> usize {
   len
 }
 
-// @obligation id=log.pad.total props=C20 kind=full tier=quick bound="padding: every i32; content <= 3 bytes; core::fmt::write and str::repeat stubbed (the width computation and the verbatim branch are what is checked)"
+// @obligation id=log.pad.total props=C20 kind=full tier=quick bound="padding: every i32; content: every prefix of abc; core::fmt::write and str::repeat stubbed (the width computation and the verbatim branch are what is checked)"
 #[kani::proof]
 #[kani::stub(core::fmt::write, stub_fmt_write)]
 #[kani::stub(str::repeat, stub_repeat)]
+#[kani::stub(core::str::count::count_chars, stub_count_chars)]
 #[kani::unwind(6)]
 fn ob_log_pad_total() {
   let f = PatternFormatter { segments: Vec::new() };
   let padding: i32 = kani::any();
-  let mut cb = [0u8; 3];
-  let cl = content3(&mut cb);
+  let cb = [b'a', b'b', b'c'];
+  let cl: usize = kani::any();
+  kani::assume(cl <= 3);
   let content = unsafe { std::str::from_utf8_unchecked(&cb[..cl]) };
   let mut buf = String::new();
   f.apply_padding(&mut buf, content, padding); // must not panic for ANY padding
